@@ -57,6 +57,13 @@ class MDPPEnv(DPPEnv):
         if generator is None:
             generator = MDPPGenerator(**generator_params)
         self.generator = generator
+        # the parent class copied these from its own default generator: take them from ours
+        self.max_decaps = self.generator.max_decaps
+        self.size = self.generator.size
+        self.raw_pdn = self.generator.raw_pdn
+        self.decap = self.generator.decap
+        self.freq = self.generator.freq
+        self.num_freq = self.generator.num_freq
 
         assert reward_type in [
             "minmax",
